@@ -169,6 +169,9 @@ def run(ctx):
                         cterm = eev.call_term(e[0])
                         if any((r[0] == "NotPred" and r[1] == "is_ok" and False) or (r[0] == "Pred" and r[1] == "is_ok" and r[2] == cterm) for r in rels):
                             sealed = True
+                        from lib import fact_is_present
+                        if fact_is_present(rels, lambda x: x == cterm, variant_index=0):
+                            sealed = True       # `seal(..).map_err(..)?` and the like
                 verdict = "ok: seed buffer after successful AEAD seal" if sealed else "LEAK: the seed buffer is written without a successful seal_in_place_append_tag"
                 seq.append(("ciphertext", v0))
             elif dek is not None and v0 == dek:
@@ -293,7 +296,7 @@ def lenlike(t):
             return t
         if is_call(t) and callee_name(t[1]) == "len":
             return t
-        if is_call(t) and callee_name(t[1]) in ("try_from", "try_into", "from", "into", "map_err", "unwrap", "expect", "unwrap_or", "min") and t[2]:
+        if is_call(t) and callee_name(t[1]) in ("try_from", "try_into", "from", "into", "map_err", "unwrap", "expect", "unwrap_or", "min", "to_le_bytes") and t[2]:
             t = t[2][0]
             continue
         return None
